@@ -98,6 +98,11 @@ def shards(tier, seed):
     # decide the next answer)
     out.append(('sequence', 5, 4, None, tier))
     out.append(('nospool', None, None, None, tier))
+    # two multipart forms on two threads of one application: every schedule with <= 1 (thorough: 2 for the first pair) preemptions
+    for fi in range(len(THREAD_FORMS)):
+        for start in (0, 1):
+            for lo, hi in ((0, 300), (300, 600), (600, 900), (900, 10 ** 9)):      # (first deviating point of the schedule: a shard each)
+                out.insert(0, ('threads', fi, start, 2 if (tier == 'thorough' and fi == 0) else 1, (lo, hi)))
     # seed extension: another (limit, threshold) pair, enumerated just as exhaustively
     out.append(('plain', 3 + seed % 9, 2 + seed % 6, 'raw', tier))
     out.append(('plain', 3 + seed % 9, 2 + seed % 6, 'urlencoded', tier))
@@ -110,7 +115,7 @@ def bounds(tier, seed):
             'reads': 'all executions with <=1 short answer (thorough: <=2 for sizes <= 12) + byte-at-a-time'}
 
 
-FLOORS = {'sequence_requests': 200, 'via_copy': 500, 'rejected_413': 200, 'accepted': 200, 'spooled_file': 50, 'text_refused': 50, 'mp_file_intact': 4,
+FLOORS = {'schedules': 1000, 'sequence_requests': 200, 'via_copy': 500, 'rejected_413': 200, 'accepted': 200, 'spooled_file': 50, 'text_refused': 50, 'mp_file_intact': 4,
           'mp_text_refused': 2, 'short_read_execs': 200}
 
 
@@ -532,7 +537,87 @@ def work_nospool(spec):
     return res
 
 
+# ---- two multipart forms on two threads of one application (E-SCHED): the in-memory budget belongs to the form being read -------
+
+HERE = __import__('os').path.abspath(__file__)
+THREAD_FORMS = [([('a', 40), ('b', 40)], [('c', 6)]),            # (over the budget together: 413) + (small: 200)
+                ([('a', 20), ('b', 20)], [('c', 50)]),            # both within the budget
+                ([('a', 40), ('b', 40)], [('c', 30), ('d', 40)])]  # both over
+THREAD_M = 100
+
+
+def _form_body(fields, tag):
+    from vf import refmp
+    return refmp.build(b'BND', [(refmp.cd(n), (tag * sz)[:sz].encode()) for n, sz in fields], epilogue=b'\r\n')[0]
+
+
+def _form_app(om):
+    app = om.Ombott({'max_memfile_size': THREAD_M})
+    app.route('/f', 'POST', lambda: repr(sorted((k, len(v)) for k, v in app.request.forms.items())))
+    return app
+
+
+def _post_form(app, body):
+    return wsgi.call(app, wsgi.environ('POST', '/f', body=body, ctype='multipart/form-data; boundary=BND'))
+
+
+def run_form_threads(om, fi, prefix):
+    from vf.sched import Scheduler
+    app = _form_app(om)
+    bodies = [_form_body(f, t) for f, t in zip(THREAD_FORMS[fi], 'xy')]
+    sp = _src_prefix()
+    return Scheduler([lambda b=b: _post_form(app, b) for b in bodies], prefix, lambda fn: fn.startswith(sp) or fn == HERE).run()
+
+
+def solo_forms(fi):
+    out = []
+    for f, t in zip(THREAD_FORMS[fi], 'xy'):
+        r = _post_form(_form_app(sut.load(fresh=True)), _form_body(f, t))
+        out.append((r.code, r.body if r.code == 200 else b''))
+    return out
+
+
+def judge_form_threads(fi, x, solo):
+    if x.hung:
+        return 'threads:hang', 'a thread did not finish'
+    for t, e in x.errors.items():
+        return 'threads:error', f'thread {t} raised {type(e).__name__}: {e}'
+    for t in (0, 1):
+        r = x.results[t]
+        got = (r.code, r.body if r.code == 200 else b'')
+        if got != solo[t]:
+            return 'threads:budget', (f'the form with the text fields (name, bytes) {THREAD_FORMS[fi][t]} was answered {got[0]} {got[1]!r}; '
+                                      f'served alone it is answered {solo[t][0]} {solo[t][1]!r} (max_memfile_size={THREAD_M})')
+    return None
+
+
+def work_form_threads(spec):
+    from vf.sched import explore
+    _, fi, start, bound, fp = spec
+    res = core.new_result()
+    c = res['counters']
+    solo = solo_forms(fi)
+    for prefix, x in explore(lambda p: run_form_threads(sut.load(fresh=True), fi, p), bound, base=(start,), first_points=fp):
+        res['states'] += 1
+        res['transitions'] += len(x.points)
+        res['execs'] += 1
+        c['schedules'] += 1
+        if x.switches:
+            res['nontrivial'] += 1
+        v = judge_form_threads(fi, x, solo)
+        res['outcomes'].add('form threads ' + ('ok' if v is None else v[0]))
+        if v is not None:
+            core.add_violation(res, {'kind': 'threads', 'forms': fi, 'choices': list(x.choices)},
+                               f'two multipart forms on two threads of one application, {x.switches} switches: {v[1]}', sig=v[0])
+    sut.load(fresh=True)
+    core.add_sample(res, {'kind': 'threads', 'forms': [list(map(list, f)) for f in THREAD_FORMS[fi]], 'solo_answers': [s[0] for s in solo], 'first_thread': start,
+                          'preemption_bound': bound, 'schedules': c['schedules']})
+    return res
+
+
 def work(spec):
+    if spec[0] == 'threads':
+        return work_form_threads(spec)
     if spec[0] == 'sequence':
         return work_sequence(spec)
     if spec[0] == 'nospool':
@@ -541,6 +626,12 @@ def work(spec):
 
 
 def replay(case):
+    if case.get('kind') == 'threads':
+        solo = solo_forms(case['forms'])
+        x = run_form_threads(sut.load(fresh=True), case['forms'], case['choices'])
+        v = judge_form_threads(case['forms'], x, solo)
+        sut.load(fresh=True)
+        return None if v is None else f'two multipart forms on two threads of one application under the schedule with {x.switches} switches: {v[1]}'
     om = sut.load()
     L, M = case['L'], case['M']
     if case['kind'] == 'sequence':
